@@ -127,7 +127,19 @@ def random_config(rng, max_w=16, max_h=8):
         if rng.random() < 0.12:
             # a payload longer than the usual I/O buffer sizes (4 KiB, 8 KiB):
             # whatever a reader buffers, a value then straddles a refill
-            cfg["extras"][-1][2] = rng.choice([4083, 4096, 4097, 4200, 8179, 8192, 8300, 4200, 8300, 65300, 65536, 66000])
+            if rng.random() < 0.5:
+                cfg["extras"][-1][2] = rng.choice([4083, 4096, 4097, 4200, 8179, 8192, 8300, 4200, 8300, 65300, 65536, 66000])
+            else:
+                # ... or a medium-sized value (hundreds of bytes to 2 KiB)
+                # straddling a 4 KiB / 8 KiB / 64 KiB offset, starting a few
+                # hundred bytes before it: a first unit brings the stream to just
+                # short of the boundary, the second one crosses it
+                bnd = rng.choice([4096, 8192, 8192, 65536, 65536])
+                short = rng.randrange(257, 1500)
+                cfg["extras"] = [
+                    [1, rng.choice(["pad", "aux"]), bnd - short - 80, rng.randrange(256)],
+                    [2, rng.choice(["pad", "aux"]), rng.choice([400, 900, 2000]), rng.randrange(256)],
+                ]
     else:
         cfg["extras"] = None
     if rng.random() < (0.45 if asym and depth_ho > 0 else 0.3):
